@@ -219,6 +219,7 @@ fn charset_table(ctx: &Ctx, rep: &mut Report) {
 }
 
 static SYS_CORE: LockStep = LockStep { property: "C04", probes: false, seed: None };
+static SYS_SPARSE: LockStep = LockStep { property: "C04", probes: false, seed: Some(&super::sweep::fill_sparse) };
 
 /// the core of printing - wrap, insert, repeat, wide and zero-width characters, a region
 /// that ends above the last row - over a small alphabet, deeper
@@ -286,6 +287,7 @@ pub fn run(ctx: &Ctx) -> Report {
     run_part(ctx, &mut rep, &medium_part(ctx.tier));
     run_part(ctx, &mut rep, &super::sweep::sweep_part("print-large-screen-parameter-sweep", &SYS_SWEEP, &alpha_sweep, ctx.tier));
     run_part(ctx, &mut rep, &super::sweep::wide_part("print-realistic-screen-parameter-sweep", &SYS_SWEEP, &alpha_wide, ctx.tier));
+    run_part(ctx, &mut rep, &super::sweep::wide_part("print-realistic-screen-sparse-content", &SYS_SPARSE, &alpha_wide, ctx.tier));
     run_part(ctx, &mut rep, &core_part(ctx.tier));
     run_part(ctx, &mut rep, &super::sweep::mode_part(&SYS_MODES, ctx.tier));
     super::sweep::mode_number_sweep(ctx, &mut rep, &SYS_MODES);
@@ -302,6 +304,9 @@ pub fn replay(ctx: &Ctx, v: &Value) -> bool {
         return rep.violations > 0;
     }
     let tier = if v["tier"] == "thorough" { Tier::Thorough } else { Tier::Quick };
+    if v["part"] == "print-realistic-screen-sparse-content" {
+        return replay_part(ctx, &super::sweep::wide_part("print-realistic-screen-sparse-content", &SYS_SPARSE, &alpha_wide, tier), v);
+    }
     if v["part"] == "print-core-deep" {
         return replay_part(ctx, &core_part(tier), v);
     }
